@@ -156,6 +156,21 @@ CHECKS.update({
         assumptions=UNIVERSAL_ASSUME,
     ),
 })
+CHECKS.update({
+    "C18": dict(
+        level="model_checking",
+        rule="stateless, preemption-bounded DFS over the scheduling points (pick/open/write/set_len/report/exit) of the real "
+             "pasfmt::format running in-process on K controlled worker threads (verif shim); every file list over the 8-kind alphabet "
+             "up to the stated length, in every order; for every complete schedule the final bytes of every file are compared with "
+             "its solo result and the reported errors with the set of failing files. states = executions (complete schedules), "
+             "transitions = scheduling points executed; every schedule is an execution of the real code",
+        bounds={"quick": "lists <= 2 over 8 kinds x K{1,2} x {files,check} x <= 2 preemptions; lists <= 3 over 5 kinds x K{2,3} x files x <= 1 preemption; aliased path x K=2 x <= 2 preemptions",
+                "thorough": "lists <= 3 over 8 kinds x K{1,2,3} x {files,check} x <= 2 preemptions; lists <= 2 x K{2,3} x <= 3 preemptions; aliased lists <= 2 x K{2,3} x <= 3 preemptions"},
+        assumptions=["the controlled pool (one shared queue, one init() buffer per worker) is a superset of rayon's buffer-reuse patterns, not a model of rayon's internals",
+                     "scheduling points sit at the file operations; code between two points runs atomically; memory orderings are not modelled (the only atomics are Relaxed stores of one constant and one monotone flag)",
+                     "file-system state is rebuilt for every execution; one recorded schedule replayed twice must give identical observations"],
+    ),
+})
 CHECKS["C01"]["bounds"]["quick"] += "; progs(d<=1) x comment+directive variants x 2 configs"
 CHECKS["C08"]["bounds"]["quick"] += "; end-of-file clause: progs(d<=2) x bases x 6 configs, wf seeds x 6"
 CHECKS["C13"]["bounds"]["quick"] += "; progs(d<=1) variants and all seeds: input and formatted output"
